@@ -74,7 +74,8 @@ def _get_stix_version(data):
             stix_version = "2.0"
         elif isinstance(data, stix2.v21._STIXBase21):
             stix_version = "2.1"
-        elif isinstance(data, dict):
+        else:
+            # a plain dict, or any other mapping holding the same content
             stix_version = detect_spec_version(data)
 
     return stix_version
@@ -245,7 +246,8 @@ def new_version(data, allow_custom=None, **kwargs):
 
     # Different versioning precision rules in STIX 2.0 vs 2.1, so we need
     # to know which rules to apply.
-    precision_constraint = "min" if stix_version == "2.1" else "exact"
+    use_stix21 = stix_version != "2.0"
+    precision_constraint = "min" if use_stix21 else "exact"
 
     old_modified = data.get("modified") or data.get("created")
     old_modified = parse_into_datetime(
@@ -270,10 +272,14 @@ def new_version(data, allow_custom=None, **kwargs):
     else:
         new_modified = get_timestamp()
         new_modified = _fudge_modified(
-            old_modified, new_modified, stix_version != "2.0",
+            old_modified, new_modified, use_stix21,
         )
 
-        kwargs['modified'] = new_modified
+        # (with the precision of the property: a dict keeps this value)
+        kwargs['modified'] = parse_into_datetime(
+            new_modified, precision='millisecond',
+            precision_constraint=precision_constraint,
+        )
 
     new_obj_inner.update(kwargs)
 
